@@ -6,7 +6,25 @@ use chain_gang::util::Hash256;
 
 fn h256(b: &[u8]) -> Hash256 { let mut a = [0u8; 32]; a.copy_from_slice(b); Hash256(a) }
 
-pub fn tables(_w: &mut dyn std::io::Write) {}
+#[allow(unused_imports)]
+use std::io::Write as _;
+pub fn tables(w: &mut dyn std::io::Write) {
+    // the genesis block and hash each network declares (src/network/network.rs), as naturals:
+    // [version, timestamp, bits, nonce] ++ prev_hash(32) ++ merkle_root(32) ++ genesis_hash(32) ++ serialised transactions
+    use chain_gang::network::Network;
+    use chain_gang::util::Serializable;
+    let nets = [Network::BSV_Mainnet, Network::BSV_Testnet, Network::BSV_STN, Network::BTC_Mainnet, Network::BTC_Testnet, Network::BCH_Mainnet, Network::BCH_Testnet];
+    for (i, n) in nets.iter().enumerate() {
+        let b = n.genesis_block();
+        let mut v: Vec<u64> = vec![b.header.version as u64, b.header.timestamp as u64, b.header.bits as u64, b.header.nonce as u64];
+        v.extend(b.header.prev_hash.0.iter().map(|x| *x as u64));
+        v.extend(b.header.merkle_root.0.iter().map(|x| *x as u64));
+        v.extend(n.genesis_hash().0.iter().map(|x| *x as u64));
+        v.push(b.txns.len() as u64);
+        for t in &b.txns { let mut bytes = Vec::new(); t.write(&mut bytes).unwrap(); v.extend(bytes.iter().map(|x| *x as u64)); }
+        writeln!(w, "LIST C19_GENESIS_{} {}", i, v.iter().map(|x| x.to_string()).collect::<Vec<_>>().join(" ")).unwrap();
+    }
+}
 
 pub fn exec(op: &str, a: &[&str]) -> Option<String> {
     match op {
